@@ -190,6 +190,18 @@ public:
    ///    1.15.0, 17.10.2018
    std::string getAttributeValue( const std::string& attr_name) const;
 
+   /// Searches for the attribute with the given name in the attribute
+   /// container of this message.
+   ///
+   /// @param[in]   attr_name   The name of the attribute to return the value of.
+   /// @param[out]  attr_value  Returns the value of the attribute, if found.
+   /// @return
+   ///    \c true if the message has an attribute with the given name, also
+   ///    when its value is empty.
+   /// @since  1.47.0, 29.09.2026
+   bool findAttributeValue( const std::string& attr_name,
+      std::string& attr_value) const;
+
 private:
    /// Time stamp when the log message (i.e., this object) was created.
    std::chrono::system_clock::time_point  mTimestamp;
@@ -344,6 +356,14 @@ inline std::string LogMsg::getAttributeValue( const std::string& attr_name) cons
    return (mpAttributes == nullptr) ? std::string()
       : mpAttributes->getAttribute( attr_name);
 } // LogMsg::getAttributeValue
+
+
+inline bool LogMsg::findAttributeValue( const std::string& attr_name,
+   std::string& attr_value) const
+{
+   return (mpAttributes != nullptr)
+      && mpAttributes->findAttribute( attr_name, attr_value);
+} // LogMsg::findAttributeValue
 
 
 // macros
